@@ -263,8 +263,8 @@ func scripts() []*script {
 			cs, _ := openPair(st, c, s)
 			st.logf("ctx done before: %v", ctxDone(c.Context()))
 			st.logf("CloseWithError %s", classify(c.CloseWithError(42, "bye")))
-			st.logf("ctx done after: %v", ctxDone(c.Context()))
-			st.logf("stream ctx done: %v", ctxDone(cs.Context()))
+			st.logf("ctx done after: %v", ctxDoneSoon(st, c.Context()))
+			st.logf("stream ctx done: %v", ctxDoneSoon(st, cs.Context()))
 			st.logf("Read %s", read1(cs))
 			st.logf("Write %s", write1(cs, "x"))
 			st.logf("OpenStream %s", openClass(c))
@@ -293,7 +293,7 @@ func scripts() []*script {
 			_, ss := openPair(st, c, s)
 			_ = c.CloseWithError(42, "bye")
 			st.logf("AcceptStream %s", acceptClass(s)) // blocks until the close arrived
-			st.logf("ctx done: %v", ctxDone(s.Context()))
+			st.logf("ctx done: %v", ctxDoneSoon(st, s.Context()))
 			st.logf("Read %s", read1(ss))
 			st.logf("Write %s", write1(ss, "x"))
 			st.logf("OpenStream %s", openClass(s))
@@ -419,7 +419,7 @@ func scripts() []*script {
 			cs, _ := openPair(st, c, s)
 			st.logf("Transport.Close %s", classify(st.closeTransport(0)))
 			st.logf("user PacketConn Close calls: %d", st.socketCloses(0))
-			st.logf("ctx done: %v", ctxDone(c.Context()))
+			st.logf("ctx done: %v", ctxDoneSoon(st, c.Context()))
 			st.logf("Read %s", read1(cs))
 			st.logf("Write %s", write1(cs, "x"))
 			st.logf("OpenStream %s", openClass(c))
@@ -436,7 +436,7 @@ func scripts() []*script {
 			// no CONNECTION_CLOSE is sent by Transport.Close: the peer only times out
 			st.logf("peer AcceptStream %s", acceptClass(s))
 			st.logf("peer Read %s", read1(ss))
-			st.logf("peer ctx done: %v", ctxDone(s.Context()))
+			st.logf("peer ctx done: %v", ctxDoneSoon(st, s.Context()))
 		}},
 		{name: "s09c-server-close-as-hysteria", idle: 2 * time.Second, body: func(st stack) {
 			// serverImpl.Close: listener.Close, tr.Close (then config.Conn.Close by hysteria itself)
@@ -451,7 +451,7 @@ func scripts() []*script {
 			st.logf("Transport.Close %s", classify(st.closeTransport(-1)))
 			st.logf("user PacketConn Close calls: %d", st.socketCloses(-1))
 			st.logf("server conn Read %s", read1(ss))
-			st.logf("server conn ctx done: %v", ctxDone(s.Context()))
+			st.logf("server conn ctx done: %v", ctxDoneSoon(st, s.Context()))
 			st.logf("client Read %s", read1(cs))
 		}},
 		{name: "s09d-server-transport-close-without-listener-close", body: func(st stack) {
@@ -844,9 +844,9 @@ func scripts() []*script {
 			c, s := st.connect()
 			st.logf("before: client %v server %v", ctxDone(c.Context()), ctxDone(s.Context()))
 			_ = s.CloseWithError(5, "")
-			st.logf("closer: %v", ctxDone(s.Context()))
+			st.logf("closer: %v", ctxDoneSoon(st, s.Context()))
 			st.logf("peer AcceptStream %s", acceptClass(c))
-			st.logf("peer: %v", ctxDone(c.Context()))
+			st.logf("peer: %v", ctxDoneSoon(st, c.Context()))
 		}},
 		{name: "s19-stream-ids", body: func(st stack) {
 			c, s := st.connect()
@@ -921,7 +921,7 @@ func scripts() []*script {
 			st.logf("conn2 write %s close %s", write1(a, "two"), classify(a.Close()))
 			d, end := readAll(b)
 			st.logf("conn2 read %s end=%s", show(d), end)
-			st.logf("ctx done: conn1 %v conn2 %v", ctxDone(s1.Context()), ctxDone(s2.Context()))
+			st.logf("ctx done: conn1 %v conn2 %v", ctxDoneSoon(st, s1.Context()), ctxDone(s2.Context()))
 		}},
 		{name: "s23-echo-both-close-orders", body: func(st stack) {
 			c, s := st.connect()
